@@ -35,7 +35,7 @@ Print Assumptions C11_truncation_bounds.
 Theorem C11_sign_verify_request : forall mac,
   (forall a k d, len (mac a k d) = native_len a) ->
   forall ks kr msg t fudge now c w tl out,
-  same_key ks kr -> k_min kr <= k_sign ks -> k_sign ks <= native_len (k_alg ks) ->
+  same_key ks kr -> k_min kr <= k_sign ks -> within_len_bounds (k_alg ks) (k_sign ks) = true ->
   client_request mac ks msg t fudge = Ok (c, w) ->
   reads_back w msg (k_name ks) (k_alg ks) (Vars t fudge RC_NOERROR None)
              (signature_slice ks (ctx_sign mac ks (digest_full ks [] msg (Vars t fudge RC_NOERROR None)))) tl ->
@@ -48,7 +48,7 @@ Print Assumptions C11_sign_verify_request.
 Theorem C11_request_outside_window_badtime : forall mac,
   (forall a k d, len (mac a k d) = native_len a) ->
   forall ks kr msg t fudge now c w tl,
-  same_key ks kr -> k_min kr <= k_sign ks -> k_sign ks <= native_len (k_alg ks) ->
+  same_key ks kr -> k_min kr <= k_sign ks -> within_len_bounds (k_alg ks) (k_sign ks) = true ->
   client_request mac ks msg t fudge = Ok (c, w) ->
   reads_back w msg (k_name ks) (k_alg ks) (Vars t fudge RC_NOERROR None)
              (signature_slice ks (ctx_sign mac ks (digest_full ks [] msg (Vars t fudge RC_NOERROR None)))) tl ->
@@ -60,7 +60,7 @@ Print Assumptions C11_request_outside_window_badtime.
 Theorem C11_sign_verify_answer : forall mac,
   (forall a k d, len (mac a k d) = native_len a) ->
   forall ks kr c msg t fudge now w tl out,
-  same_key ks kr -> k_min kr <= k_sign ks -> k_sign ks <= native_len (k_alg ks) ->
+  same_key ks kr -> k_min kr <= k_sign ks -> within_len_bounds (k_alg ks) (k_sign ks) = true ->
   server_answer mac ks c msg t fudge = Ok w ->
   reads_back w msg (k_name ks) (k_alg ks) (Vars t fudge RC_NOERROR None)
              (signature_slice ks (ctx_sign mac ks (digest_full ks c msg (Vars t fudge RC_NOERROR None)))) tl ->
@@ -73,7 +73,7 @@ Print Assumptions C11_sign_verify_answer.
 
 Theorem C11_mac_mismatch_is_badsig : forall mac k w now t sm a,
   from_message w = Ok t -> alg_from_name (mt_algname t) = Some a -> store_get k (mt_owner t) a = true ->
-  stripped w t = Ok sm -> k_min k <= len (mt_mac t) ->
+  stripped w t = Ok sm -> within_len_bounds (k_alg k) (len (mt_mac t)) = true -> k_min k <= len (mt_mac t) ->
   compare_signatures k (ctx_sign mac k (digest_full k [] sm (mt_vars t))) (mt_mac t) <> Ok tt ->
   server_request mac k w now = Err (SE_UNSIGNED + RC_BADSIG).
 Proof. exact server_mac_mismatch_badsig. Qed.
@@ -81,10 +81,18 @@ Print Assumptions C11_mac_mismatch_is_badsig.
 
 Theorem C11_short_mac_is_badtrunc : forall mac k w now t sm a,
   from_message w = Ok t -> alg_from_name (mt_algname t) = Some a -> store_get k (mt_owner t) a = true ->
-  stripped w t = Ok sm -> len (mt_mac t) < k_min k ->
+  stripped w t = Ok sm -> within_len_bounds (k_alg k) (len (mt_mac t)) = true -> len (mt_mac t) < k_min k ->
   server_request mac k w now = Err (SE_UNSIGNED + RC_BADTRUNC).
 Proof. exact server_short_mac_badtrunc. Qed.
 Print Assumptions C11_short_mac_is_badtrunc.
+
+Theorem C11_mac_size_out_of_range_is_formerr : forall mac k w now t sm a,
+  compare_checks_rfc_size = true ->
+  from_message w = Ok t -> alg_from_name (mt_algname t) = Some a -> store_get k (mt_owner t) a = true ->
+  stripped w t = Ok sm -> within_len_bounds (k_alg k) (len (mt_mac t)) = false ->
+  server_request mac k w now = Err (SE_UNSIGNED + server_code_other).
+Proof. exact server_mac_size_formerr. Qed.
+Print Assumptions C11_mac_size_out_of_range_is_formerr.
 
 Theorem C11_accepted_mac_is_rfc8945 : forall mac,
   (forall a k d, len (mac a k d) = native_len a) ->
